@@ -57,4 +57,87 @@ theorem checkTrace_sound (tr pre mid post : List Sys) (f id : Nat) (h : checkTra
 example : checkTrace [.write 0, .write 0, .fsync 0, .fin 1] = true := by decide
 example : checkTrace [.write 0, .fsync 0, .write 1, .fin 1] = false := by decide
 
+/-- what the per-message checker certifies for message `id` and the trace prefix `a` before its FIN -/
+def Covered (id : Nat) (a : List MSys) : Prop :=
+  ∃ a1 a2 a3 f, a = a1 ++ MSys.wmsg f id :: a2 ++ MSys.fsync f :: a3
+
+theorem Covered_cons {id : Nat} {a : List MSys} (x : MSys) (h : Covered id a) : Covered id (x :: a) := by
+  obtain ⟨a1, a2, a3, f, e⟩ := h
+  exact ⟨x :: a1, a2, a3, f, by rw [e]; simp⟩
+
+theorem checkMsgFrom_sound (dirty : List (Nat × Nat)) (clean : List Nat) (tr a b : List MSys) (id : Nat)
+    (h : checkMsgFrom dirty clean tr = true) (hs : tr = a ++ MSys.fin id :: b) :
+    id ∈ clean ∨ (∃ f a2 a3, (f, id) ∈ dirty ∧ a = a2 ++ MSys.fsync f :: a3) ∨ Covered id a := by
+  induction tr generalizing dirty clean a with
+  | nil => cases a <;> simp at hs
+  | cons x r ih =>
+    cases a with
+    | nil =>
+      simp at hs
+      obtain ⟨rfl, rfl⟩ := hs
+      simp [checkMsgFrom] at h
+      exact Or.inl h.1
+    | cons y a' =>
+      simp at hs
+      obtain ⟨rfl, hr⟩ := hs
+      cases x with
+      | wmsg g k =>
+        simp [checkMsgFrom] at h
+        cases ih _ _ a' h hr with
+        | inl hc => exact Or.inl hc
+        | inr hrest =>
+          cases hrest with
+          | inl hd =>
+            obtain ⟨f, a2, a3, hmem, e⟩ := hd
+            cases hmem with
+            | head => exact Or.inr (Or.inr ⟨[], a2, a3, g, by rw [e]; simp⟩)
+            | tail _ hmem => exact Or.inr (Or.inl ⟨f, MSys.wmsg g k :: a2, a3, hmem, by rw [e]; simp⟩)
+          | inr hc => exact Or.inr (Or.inr (Covered_cons _ hc))
+      | fsync g =>
+        simp [checkMsgFrom] at h
+        cases ih _ _ a' h hr with
+        | inl hc =>
+          rw [List.mem_append] at hc
+          cases hc with
+          | inl hc =>
+            rw [List.mem_map] at hc
+            obtain ⟨p, hp, e⟩ := hc
+            rw [List.mem_filter] at hp
+            have hg : p.1 = g := by simpa using hp.2
+            have : p = (g, id) := by cases p; simp_all
+            rw [this] at hp
+            exact Or.inr (Or.inl ⟨g, [], a', hp.1, by simp⟩)
+          | inr hc => exact Or.inl hc
+        | inr hrest =>
+          cases hrest with
+          | inl hd =>
+            obtain ⟨f, a2, a3, hmem, e⟩ := hd
+            rw [List.mem_filter] at hmem
+            exact Or.inr (Or.inl ⟨f, MSys.fsync g :: a2, a3, hmem.1, by rw [e]; simp⟩)
+          | inr hc => exact Or.inr (Or.inr (Covered_cons _ hc))
+      | fin k =>
+        simp [checkMsgFrom] at h
+        cases ih _ _ a' h.2 hr with
+        | inl hc => exact Or.inl hc
+        | inr hrest =>
+          cases hrest with
+          | inl hd =>
+            obtain ⟨f, a2, a3, hmem, e⟩ := hd
+            exact Or.inr (Or.inl ⟨f, MSys.fin k :: a2, a3, hmem, by rw [e]; simp⟩)
+          | inr hc => exact Or.inr (Or.inr (Covered_cons _ hc))
+
+/-- **an accepted end-to-end trace:** before every `FIN id` the record of message `id` was written to
+some file and that file was fsynced afterwards -/
+theorem checkMsgTrace_sound (tr pre post : List MSys) (id : Nat) (h : checkMsgTrace tr = true)
+    (hs : tr = pre ++ MSys.fin id :: post) : Covered id pre := by
+  cases checkMsgFrom_sound [] [] tr pre post id h hs with
+  | inl hc => cases hc
+  | inr hrest =>
+    cases hrest with
+    | inl hd => obtain ⟨_, _, _, hmem, _⟩ := hd; cases hmem
+    | inr hc => exact hc
+
+example : checkMsgTrace [.wmsg 0 1, .wmsg 0 2, .fsync 0, .wmsg 0 3, .fin 2, .fin 1] = true := by decide
+example : checkMsgTrace [.wmsg 0 1, .fin 1, .fsync 0] = false := by decide
+
 end Nsq.Proofs.ToFileTrace
